@@ -1,6 +1,7 @@
 import Prism.Model.Util
 import Prism.Model.Color
 import Prism.Check.C01
+import Prism.Driver.BytesOps
 
 /-!
 # Model driver: one operation per input line, one canonical answer per output line.
@@ -67,6 +68,9 @@ def c01Range (s : Space) (entry : String) (ch lo hi : Nat) : UInt64 := Id.run do
   return h
 
 def handle (toks : List String) : String :=
+  match Ops.handleBytes toks with
+  | some r => r
+  | none =>
   match toks with
   | ["sf", fs, op, a, b] =>
     match fmtOf? fs, parseHex? a, parseHex? b with
@@ -105,6 +109,7 @@ partial def loop (h : IO.FS.Stream) (out : IO.FS.Stream) : IO Unit := do
   if line.isEmpty then return ()
   let toks := (line.trimAscii.toString.splitOn " ").filter (· ≠ "")
   out.putStrLn (handle toks)
+  out.flush
   loop h out
 
 def main : IO Unit := do
